@@ -786,6 +786,10 @@ class FakeWcs:
         self.calls.append(pix.copy())
         return self.fn(pix)
 
+    def wcs_world2pix(self, world, origin):
+        # the synthetic world function has no poles inside the image
+        return np.full((len(world), 2), np.nan)
+
 
 def make_world_fn(rng, n1, n2):
     """lat peaks at a chosen pixel position (possibly interior, possibly on the rim);
